@@ -101,6 +101,7 @@ func run(t *testing.T, tape *simrt.Tape) *hx.Outcome {
 	expireDen := []int{0, 3}[c(2)]
 	withMirror := c(2) == 0
 	hostShape := c(4)
+	secondHop := c(2) == 0 // the CDN redirects once more to a URL on its own host
 	// header names as an operator may spell them in the config file: canonical or not
 	regKey := []string{"X-Reg-Key", "x-reg-key"}[c(2)]
 	mirrorKey := []string{"X-Mirror-Key", "x-mirror-KEY"}[c(2)]
@@ -133,7 +134,7 @@ func run(t *testing.T, tape *simrt.Tape) *hx.Outcome {
 	requests, withCreds, cdnRequests := 0, 0, 0
 	res := simrt.Run(t, tape, simrt.Options{MaxSteps: 400000, HangAfter: 2 * time.Hour}, func(s *simrt.Sim, mt *simrt.Task) {
 		reg := simreg.New(s, simreg.Config{Host: "reg.example", CDNHost: "cdn.example", AltHosts: []string{"registry-1.docker.io", "mirror.example"},
-			Base: simreg.Multipart, Redirect: redirect, ExpireDen: expireDen, HeadRefused: s.Tape.Draw("cfg", 2) == 0})
+			Base: simreg.Multipart, Redirect: redirect, CDNSecondHop: redirect && secondHop, ExpireDen: expireDen, HeadRefused: s.Tape.Draw("cfg", 2) == 0})
 		for _, im := range images {
 			reg.Blobs[im.dgst.String()] = im.blob
 		}
